@@ -231,12 +231,17 @@ theorem dmStep_inv {t : Tree} {st : DMState} (pre : DMPre t) (hso : Sorted t) (s
             (n := .negated (insert r1 newNode).2.1)
             (by simpa [Node.children] using hins.2.2.2) (by omega)
           have hsz3 := (insert_size_le (insert r1 newNode).1 (.negated (insert r1 newNode).2.1)).2
-          refine ⟨⟨h3.built, fun j => trOk_upd h3.tr nodeId _ ?_ j, h3.vol⟩, by simp only; omega⟩
-          refine ⟨(h3.tr nodeId).unmod, (h3.tr nodeId).simp, (h3.tr nodeId).opp,
-            fun _ => ⟨hins3.2.2.2, fun σ => ?_⟩⟩
-          rw [hins3.2.2.1 σ]
-          simp only [evalNode]
-          rw [hins.2.2.1 σ, hev σ, denote_get hso σ hi]
+          have htr3 : ∀ j, TrOk t (insert (insert r1 newNode).1 (.negated (insert r1 newNode).2.1)).1
+              (updTr (updTr tr1 nodeId fun m => { m with unmodified := (insert r1 newNode).2.1 })
+                nodeId (fun m => { m with newNegation :=
+                  (insert (insert r1 newNode).1 (.negated (insert r1 newNode).2.1)).2.1 }) j) j := by
+            apply trOk_upd h3.tr
+            refine ⟨(h3.tr nodeId).unmod, (h3.tr nodeId).simp, (h3.tr nodeId).opp,
+              fun _ => ⟨hins3.2.2.2, fun σ => ?_⟩⟩
+            rw [hins3.2.2.1 σ]
+            simp only [evalNode]
+            rw [hins.2.2.1 σ, hev σ, denote_get hso σ hi]
+          exact ⟨⟨h3.built, htr3, h3.vol⟩, by simp only; omega⟩
         · rw [if_neg hnf] at hs
           cases hs
           exact ⟨h2', by simp only; omega⟩
